@@ -440,6 +440,13 @@ func runCheck(prop, tier string, seed int) int {
 			continue
 		}
 		path, reproduced := writeReplay(replayDir, prop, o, oblGOOS[o], timeout)
+		if _, u := lastReplayUninterpreted.Load(o); u {
+			// the solver's counterexample was run on the real function: on the real output the clause holds or fails
+			// depending only on what an uninterpreted library function returns, so this refutation decides nothing
+			// (the bounded companion of the property, which executes the real formatting, is what decides)
+			rep.undecided = append(rep.undecided, fmt.Sprintf("%s: refuted only through an uninterpreted library function (on the real output for the counterexample the clause is true or false depending only on what that function returns); see %s", o.Name, path))
+			continue
+		}
 		line := fmt.Sprintf("VIOLATION property=%s replay=%s", prop, path)
 		if !reproduced {
 			line += " no-failing-input-found"
@@ -834,8 +841,17 @@ func writeReplay(dir, prop string, o *Obligation, goos string, timeout int) (str
 	rp["reproduced_on_real_code"] = reproduced
 	b, _ := json.MarshalIndent(rp, "", " ")
 	os.WriteFile(path, b, 0o644)
+	if r, ok := rp["real_code_replay"].(map[string]interface{}); ok && !reproduced {
+		if u, _ := r["rests_on_uninterpreted"].(bool); u {
+			lastReplayUninterpreted.Store(o, true)
+		}
+	}
 	return path, reproduced
 }
+
+// obligations whose counterexample was run on the real function and whose clause, on the real output, is true or false
+// depending only on what an uninterpreted library function (fmt.Sprintf ...) returns: the refutation is not evidence
+var lastReplayUninterpreted sync.Map
 
 func cmdReplay(args []string) {
 	if len(args) < 1 {
